@@ -6,6 +6,8 @@ import (
 	"math/rand/v2"
 	"reflect"
 	"strings"
+	"sync"
+	"sync/atomic"
 
 	bigbuff "github.com/joeycumines/go-bigbuff"
 
@@ -570,6 +572,7 @@ func init() {
 			{Name: "enum-small", N: core.TierN(1, 1), Solo: true, Run: c19Enum},
 			{Name: "nil-directed", N: core.TierN(1, 1), Solo: true, Run: c19NilHuge},
 			{Name: "huge-variadic", N: core.TierN(1, 1), Solo: true, Run: c19Huge},
+			{Name: "shared-options", N: core.TierN(8, 80), Batch: 2, Run: c19SharedOptions},
 		},
 	})
 }
@@ -725,4 +728,66 @@ func c19Huge(c *core.Ctx) {
 	c.Op("call", cases)
 	c.Nontrivial()
 	c.Sig("huge", cases)
+}
+
+// c19SharedOptions: one CallArgs / CallResultsSlice option value applied concurrently to callables of different
+// signatures (an option is a value like any other: nothing says it must be rebuilt per call).
+func c19SharedOptions(c *core.Ctx) {
+	type rec struct {
+		mu   sync.Mutex
+		seen []string
+	}
+	opt := bigbuff.CallArgs(7, "x")
+	fnA := func(a int, b string) string { return fmt.Sprintf("A:%d:%s", a, b) }
+	fnB := func(xs ...interface{}) string { return fmt.Sprintf("B:%v", xs) }
+	fnC := func(a interface{}, b interface{}) string { return fmt.Sprintf("C:%v:%v", a, b) }
+	fnD := func(a int) string { return "D" } // ill-typed for two arguments: must error
+	var bad atomic.Value
+	var wg sync.WaitGroup
+	iters := 3000
+	for g := 0; g < 4; g++ {
+		g := g
+		wg.Add(1)
+		go func() {
+			defer wg.Done()
+			for i := 0; i < iters; i++ {
+				var out string
+				var err error
+				var want string
+				pv := core.Recover(func() {
+					switch (g + i) % 4 {
+					case 0:
+						err, want = bigbuff.Call(bigbuff.NewCallable(fnA), opt, bigbuff.CallResults(&out)), "A:7:x"
+					case 1:
+						err, want = bigbuff.Call(bigbuff.NewCallable(fnB), opt, bigbuff.CallResults(&out)), "B:[7 x]"
+					case 2:
+						err, want = bigbuff.Call(bigbuff.NewCallable(fnC), opt, bigbuff.CallResults(&out)), "C:7:x"
+					default:
+						err = bigbuff.Call(bigbuff.NewCallable(fnD), opt, bigbuff.CallResults(&out))
+						if err == nil {
+							err = fmt.Errorf("ill-typed call returned nil error")
+						} else {
+							err = nil
+						}
+						want = ""
+					}
+				})
+				if pv != nil {
+					bad.Store(fmt.Sprintf("Call panicked on its own account with a shared option: %v", firstLineOf(fmt.Sprint(pv))))
+					return
+				}
+				if err != nil || out != want {
+					bad.Store(fmt.Sprintf("shared option: got (%q, %v), want %q", out, err, want))
+					return
+				}
+			}
+		}()
+	}
+	wg.Wait()
+	if b := bad.Load(); b != nil {
+		c.Violate("shared-option", "%v", b)
+	}
+	c.Op("call", 4*iters)
+	c.Nontrivial()
+	c.Sig("shared", c.Index)
 }
